@@ -61,6 +61,7 @@ Section LadderP.
     destruct (mem_str _ WRAPPER_COMMANDS && Nat.ltb 1 (length tokens)) eqn:E; [|reflexivity].
     destruct (str_eqb _ _ && mem_str _ COMMAND_V_FLAGS); [reflexivity|].
     destruct (skip_wrapper_args _ (tl tokens)) eqn:Es; [reflexivity|].
+    destruct (negb _ && is_assignment _); [reflexivity|].
     apply H. rewrite <- Es. pose proof (skip_wrapper_args_length (match tokens with b :: _ => b | [] => [] end) (tl tokens)) as Hl.
     destruct tokens as [|t0 tk]; [apply andb_true_iff in E as [_ E]; discriminate|]. cbn [tl length] in *. lia.
   Qed.
@@ -229,14 +230,32 @@ Section LadderP.
     mcmd c (w :: rest) = None ->
     (str_eqb w $"command" && mem_str (nth 0 rest []) COMMAND_V_FLAGS) = false ->
     skip_wrapper_args w rest = inner -> inner <> [] ->
+    (negb (str_eqb w $"time") && is_assignment (hd [] inner)) = false ->
     ladder c (w :: rest) = ladder c inner.
   Proof.
-    intros Ha Hw Hm Hv Hs Hne. rewrite (ladder_unfold c (w :: rest)). cbn [skip_assignments]. rewrite Ha.
+    intros Ha Hw Hm Hv Hs Hne Hna. rewrite (ladder_unfold c (w :: rest)). cbn [skip_assignments]. rewrite Ha.
     cbn beta iota zeta. rewrite Hm.
     unfold Ladder.after_rules. rewrite Hw. cbn [andb].
     destruct rest as [|r0 rest'].
     { exfalso. apply Hne. rewrite <- Hs. unfold skip_wrapper_args. cbn [skip_wrapper_opts]. apply skipn_nil. }
-    cbn [length Nat.ltb Nat.leb nth tl] in *. rewrite Hv, Hs. destruct inner; [congruence|reflexivity].
+    cbn [length Nat.ltb Nat.leb nth tl] in *. rewrite Hv, Hs. destruct inner; [congruence|]. rewrite Hna. reflexivity.
+  Qed.
+
+  (* a wrapper PROGRAM (every wrapper but the keyword time) runs a NAME=value word as a command: asked about *)
+  Lemma wrapper_assignment_word_asks c w rest a inner :
+    is_assignment w = false ->
+    mem_str w WRAPPER_COMMANDS = true ->
+    mcmd c (w :: rest) = None ->
+    (str_eqb w $"command" && mem_str (nth 0 rest []) COMMAND_V_FLAGS) = false ->
+    skip_wrapper_args w rest = a :: inner -> str_eqb w $"time" = false -> is_assignment a = true ->
+    ladder c (w :: rest) = Ask.
+  Proof.
+    intros Ha Hw Hm Hv Hs Ht Has. rewrite (ladder_unfold c (w :: rest)). cbn [skip_assignments]. rewrite Ha.
+    cbn beta iota zeta. rewrite Hm.
+    unfold Ladder.after_rules. rewrite Hw. cbn [andb].
+    destruct rest as [|r0 rest'].
+    { exfalso. unfold skip_wrapper_args in Hs. cbn [skip_wrapper_opts] in Hs. rewrite skipn_nil in Hs. discriminate. }
+    cbn [length Nat.ltb Nat.leb nth tl] in *. rewrite Hv, Hs. cbn [hd]. rewrite Ht, Has. reflexivity.
   Qed.
 
   (* a handler's answer decides when nothing earlier on the ladder applies *)
